@@ -115,9 +115,9 @@ def run(ctx):
     rng = random.Random(ctx.seed)
     pats = corpus.corpus(random.Random(ctx.seed + 5), ctx.pick(40, 600))
     # ---- design level
-    extra = rng.sample([p for p in pats if p not in DESIGN_CORE], ctx.pick(2, 30))
-    dates = [dt.date(2021, 1, 1), dt.date(2024, 12, 30)] + ctx.pick([], [dt.date(2021, 7, 29), dt.date(2020, 12, 31)])
-    res = design(ctx, DESIGN_CORE + extra, dates, ctx.pick([0, 1, 31, -1], [0, 1, 31, 366, -1, -365]), ctx.pick([0, 9], [0, 9, 99]))
+    extra = rng.sample([p for p in pats if p not in DESIGN_CORE], ctx.pick(2, 12))
+    dates = [dt.date(2021, 1, 1), dt.date(2024, 12, 30)] + ctx.pick([], [dt.date(2021, 7, 29)])
+    res = design(ctx, DESIGN_CORE + extra, dates, ctx.pick([0, 1, 31, -1], [0, 1, 31, 366, -1]), [0, 9])
     if res.distinct < 1000:
         raise Machinery("MC_C05 explored only %d states" % res.distinct)
     # ---- code -> spec
